@@ -10,7 +10,8 @@ def meta_unit(files, entries, tiers=None, pkg="./pkg/local_object_storage/metaba
       {"file":"mod:github.com/nspcc-dev/bbolt/db.go","funcs":["DB.View","DB.Update","DB.Batch","DB.Close","DB.Sync"]},
       {"file":"mod:github.com/nspcc-dev/bbolt/tx.go","funcs":["Tx.Writable","Tx.Bucket","Tx.CreateBucket","Tx.CreateBucketIfNotExists","Tx.DeleteBucket","Tx.ForEach","Tx.Cursor"]},
       {"file":"mod:github.com/nspcc-dev/bbolt/bucket.go","funcs":["Bucket.Writable","Bucket.Tx","Bucket.Bucket","Bucket.CreateBucket","Bucket.CreateBucketIfNotExists","Bucket.DeleteBucket","Bucket.Get","Bucket.Put","Bucket.Delete","Bucket.ForEach","Bucket.Cursor"]},
-      {"file":"mod:github.com/nspcc-dev/bbolt/cursor.go","funcs":["Cursor.Bucket","Cursor.First","Cursor.Last","Cursor.Seek","Cursor.Next","Cursor.Prev","Cursor.Delete"]}]+(extra_rename or []),
+      {"file":"mod:github.com/nspcc-dev/bbolt/cursor.go","funcs":["Cursor.Bucket","Cursor.First","Cursor.Last","Cursor.Seek","Cursor.Next","Cursor.Prev","Cursor.Delete"]},
+      {"file":"pkg/local_object_storage/metabase/mode.go","funcs":["DB.SetMode"]}]+(extra_rename or []),
      "entries":entries,"tiers":tiers or {"quick":{"unwind":200},"thorough":{"unwind":200}},"replay":"native"}
     return u
 BBOLT_ASSUMPTION="bbolt is a functional model (sorted key/value buckets, Seek = first key >= argument, atomic Update/Batch rolled back on error) injected by a rename overlay of a scratch copy of the bbolt module"
